@@ -23,7 +23,7 @@ from ..guards import (G, TRUE, FALSE, g_and, g_not, g_or, g_equiv, g_implies, g_
 from ..gvn import Frame, Obj, PW, Vec, cases_of, veq, mk_pw, Unsupported
 from ..intervals import single_atom
 from ..seqdom import Gen, flatten, seq_equiv, var_symbol, mk_gen, unit_step
-from .common import RuleCtx, _short
+from .common import section, RuleCtx, _short
 
 C = Rat.const
 
@@ -197,6 +197,19 @@ def _union(rc: RuleCtx, fi, ev, val, env, label: str, tag: str, mapped_knees: bo
         res.violation("A4", fi.module, fi.name, fi.node, "the union is not converted to integers (np.concatenate yields floats when a part is empty)", "",
                       "knees_idx.astype(int)", construct=f"astype {tag}")
     want_parts = 3 if flag is TRUE else 2
+    if flag is TRUE and len(parts) == 2:
+        # the extremes may have been appended to the list of inserted points instead of being a third part of the union:
+        # the trailing plain items of that list are the extremes, the summarised blocks in front of them the inserted points
+        na_ = single_atom(parts[1])
+        lst_ = ev.vec_registry.get(na_.skey) if na_ is not None and na_.name == "vec" else None
+        if isinstance(lst_, Vec):
+            k_ = len(lst_.items)
+            while k_ > 0 and isinstance(lst_.items[k_ - 1], Rat) and not lst_.items[k_ - 1].is_array():
+                k_ -= 1
+            if 0 < len(lst_.items) - k_ and all(not isinstance(i_, Rat) for i_ in lst_.items[:k_]):
+                head_, tail_ = Vec(list(lst_.items[:k_]), "list"), Vec(list(lst_.items[k_:]), "list")
+                rh_, rt_ = ev.to_rat(head_), ev.to_rat(tail_)
+                parts = [parts[0], rh_, rt_]
     ok = len(parts) == want_parts
     new = None
     if ok:
@@ -248,8 +261,8 @@ def run(ctx):
                  "A5": "knees and candidates are mapped with rdp.mapping(., reduced, removed) first",
                  "A6": "markers variant: gaps (0, k_0), (k_{j-1}, k_j), (k_last, n-1)"}.items():
         res.rule(k, v)
-    _even(rc)
-    _even_knees(rc)
+    section(rc, _even)
+    section(rc, _even_knees)
     # the two opaque stages of the result: the final height filter and the reduced -> original index mapping
     from . import c13, c07
     from .common import borrow
